@@ -79,13 +79,17 @@ theorem walk_chain (fs : FS) : ∀ (f : Nat) (comps : List Str) (cur l : Loc),
       | plain n h1 h2 hn hnl hw =>
         have hcl : Clean c := ⟨fun e => h1 (Or.inl e), fun e => h1 (Or.inr e), h2, hns c (by simp)⟩
         exact ih _ _ hw hns' (Chain.snoc hrd hcl)
-      | link t f' l1 h1 h2 hn hf hw1 hw2 =>
+      | link t f' h1 h2 hn hf hw =>
         subst hf
         have hs : Chain fs (startLoc cur t) := by
           unfold startLoc; split
           · exact (RealDir.root fs).1
           · exact hc
-        exact ih _ _ hw2 hns' (ihf f' (by omega) _ _ _ hw1 (splitSep_noSep t) hs)
+        refine ihf f' (by omega) _ _ _ hw ?_ hs
+        intro x hx
+        rcases List.mem_append.mp hx with hx | hx
+        · exact splitSep_noSep t x hx
+        · exact hns' x hx
 
 /-- the kernel walks the pieces of the target string; `_joinrealpath` first strips the leading
 separator of an absolute target (posixpath.py:450-452): same walk -/
@@ -159,17 +163,23 @@ theorem joinReal_sim (fs : FS) (kf : Nat) (cwd : Loc) (hcwd : RealDir fs cwd) :
         rw [jr_plain _ _ _ _ _ _ _ _ h1 h2 (by
           intro t; rw [hls, hn]; intro e; exact hnl t (Option.some.inj e))]
         exact ih _ _ _ _ _ hw hns' (Chain.snoc hrd hcl) hpf (hr.push hcl) hdone hprog
-      | link t f' l1 h1 h2 hn hf hw1 hw2 =>
+      | link t f' h1 h2 hn hf hw =>
         subst hf
+        obtain ⟨l1, k, hk, hw1, hw2⟩ := walk_append_inv fs f' (splitSep t) _ rest l hw
         have hcl : Clean c := ⟨fun e => h1 (Or.inl e), fun e => h1 (Or.inr e), h2, hns c (by simp)⟩
         have hls := lstat_rep fs kf cwd hcwd hr hrd hcl
         rw [hn] at hls
         have hnp : Rep cwd (pjoin path c) (cur ++ [c]) := hr.push hcl
         have hl1 : Chain fs l1 := by
-          refine walk_chain fs f' _ _ _ hw1 (splitSep_noSep t) ?_
+          refine walk_chain fs k _ _ _ hw1 (splitSep_noSep t) ?_
           unfold startLoc; split
           · exact (RealDir.root fs).1
           · exact hc
+        -- the links that are left after this one's target cover the remaining components
+        have hprogW : ∀ s, ProgOK fs cwd (f' + 1) s → ProgOK fs cwd (f' - k) s := by
+          intro s hs np hf cur2 name2 t2 hr2 hg2 g l' hwg
+          have := hs np hf cur2 name2 t2 hr2 hg2 g l' hwg
+          omega
         -- every description of this link agrees with (cur, c, t)
         have same : ∀ cur2 name2 t2, Rep cwd (pjoin path c) (cur2 ++ [name2]) →
             fs.get (cur2 ++ [name2]) = some (Node.link t2) → cur2 = cur ∧ t2 = t := by
@@ -184,15 +194,15 @@ theorem joinReal_sim (fs : FS) (kf : Nat) (cwd : Loc) (hcwd : RealDir fs cwd) :
           cases v with
           | some p =>
             rw [jr_link_done _ _ _ _ _ _ _ _ h1 h2 t hls p hfind]
-            have hp : Rep cwd p l1 := hdone _ _ hfind cur c t hnp hn f' l1 hw1
-            exact ih _ _ _ _ _ hw2 hns' hl1 hpf hp hdone hprog
+            have hp : Rep cwd p l1 := hdone _ _ hfind cur c t hnp hn k l1 hw1
+            exact ihf (f' - k) (by omega) rest l1 l pf p seen hw2 hns' hl1 (by omega) hp hdone (hprogW _ hprog)
           | none =>
-            have := hprog _ hfind cur c t hnp hn f' l1 hw1
+            have := hprog _ hfind cur c t hnp hn k l1 hw1
             omega
         | none =>
           obtain ⟨pf', rfl⟩ : ∃ pf', pf = pf' + 1 := ⟨pf - 1, by omega⟩
           obtain ⟨m, hm1, hm2, hm3⟩ := exists_min_fuel
-            (fun g => walk fs g (startLoc cur t) (splitSep t) true = some l1) f' hw1
+            (fun g => walk fs g (startLoc cur t) (splitSep t) true = some l1) k hw1
           have hstart : Chain fs (startLoc cur t) := by
             unfold startLoc; split
             · exact (RealDir.root fs).1
@@ -208,16 +218,16 @@ theorem joinReal_sim (fs : FS) (kf : Nat) (cwd : Loc) (hcwd : RealDir fs cwd) :
             · simp at hf
             · exact hdone np p hf
           have hprog0 : ProgOK fs cwd m ((pjoin path c, none) :: seen) := by
-            intro np hf cur2 name2 t2 hr2 hg2 g l' hw
+            intro np hf cur2 name2 t2 hr2 hg2 g l' hwg
             rw [find_cons] at hf
             split at hf
             · rename_i e; subst e
               obtain ⟨e1, e2⟩ := same cur2 name2 t2 hr2 hg2
               subst e1; subst e2
-              have := walk_det fs g f' _ _ _ _ hw hw1
+              have := walk_det fs g k _ _ _ _ hwg hw1
               subst this
-              exact hm3 g hw
-            · have := hprog np hf cur2 name2 t2 hr2 hg2 g l' hw
+              exact hm3 g hwg
+            · have := hprog np hf cur2 name2 t2 hr2 hg2 g l' hwg
               omega
           have hwm : walk fs m (startLoc cur t) (splitSep (if isabs t then t.tail else t)) true =
               some l1 := by rw [walk_target_eq]; exact hm1
@@ -225,33 +235,33 @@ theorem joinReal_sim (fs : FS) (kf : Nat) (cwd : Loc) (hcwd : RealDir fs cwd) :
             ihf m (by omega) _ _ _ pf' _ _ hwm (splitSep_noSep _) hstart (by omega) hpath0 hdone0 hprog0
           rw [jr_link_fresh _ _ _ _ _ _ _ _ h1 h2 t hls hfind p1 s1 hj1]
           have hdone2 : DoneOK fs cwd ((pjoin path c, some p1) :: s1) := by
-            intro np p hf cur2 name2 t2 hr2 hg2 g l' hw
+            intro np p hf cur2 name2 t2 hr2 hg2 g l' hwg
             rw [find_cons] at hf
             split at hf
             · rename_i e; subst e
               obtain ⟨e1, e2⟩ := same cur2 name2 t2 hr2 hg2
               subst e1; subst e2
-              have := walk_det fs g f' _ _ _ _ hw hw1
+              have := walk_det fs g k _ _ _ _ hwg hw1
               subst this
               cases hf
               exact hp1
-            · exact hdone1 np p hf cur2 name2 t2 hr2 hg2 g l' hw
-          have hsub : ∀ k, Seen.find ((pjoin path c, some p1) :: s1) k = some none →
-              Seen.find seen k = some none := by
-            intro k hk
-            rw [find_cons] at hk
-            split at hk
-            · simp at hk
+            · exact hdone1 np p hf cur2 name2 t2 hr2 hg2 g l' hwg
+          have hsub : ∀ q, Seen.find ((pjoin path c, some p1) :: s1) q = some none →
+              Seen.find seen q = some none := by
+            intro q hq
+            rw [find_cons] at hq
+            split at hq
+            · simp at hq
             · rename_i hne
-              have := hprog1 k hk
+              have := hprog1 q hq
               rw [find_cons] at this
               simpa [hne] using this
           have hprog2 : ProgOK fs cwd (f' + 1) ((pjoin path c, some p1) :: s1) := by
             intro np hf
             exact hprog np (hsub np hf)
           obtain ⟨p2, s2, hj2, hp2, hdone3, hprog3⟩ :=
-            ih _ _ _ _ _ hw2 hns' hl1 hpf hp1 hdone2 hprog2
-          exact ⟨p2, s2, hj2, hp2, hdone3, fun k hk => hsub k (hprog3 k hk)⟩
+            ihf (f' - k) (by omega) rest l1 l (pf' + 1) p1 _ hw2 hns' hl1 (by omega) hp1 hdone2 (hprogW _ hprog2)
+          exact ⟨p2, s2, hj2, hp2, hdone3, fun q hq => hsub q (hprog3 q hq)⟩
 
 end IrVerif.Path
 
